@@ -72,7 +72,7 @@ func both(string) []string { return []string{"asm", "noasm"} }
 func init() {
 	addSpec(&propSpec{
 		ID:          "C13",
-		Rule:        "cases: one-shot lengths 0..1024 x 4 contents x 4 alignments; streaming: exhaustive carry-buffer fill 0..15 x next write {0..49,63..65,4095..4097} x following write 0..33 x {fresh, after one stripe} with Sum32 (twice) and Sum probes after every write and Reset-reuse; random partitions up to 8 MiB; totals 2^32-16..2^32+16 via state copies, the tail written in one write, split 1+rest, and split so that a write ends exactly on 2^32 with more writes after it (thorough: one-shot on real 4 GiB buffers and a Writer trailer for 2^32+5 bytes). A cell is (part, carry, length class); every case compares against the reference so all are non-trivial.",
+		Rule:        "cases: one-shot lengths 0..1024 x 4 contents x 4 alignments; streaming: exhaustive carry-buffer fill 0..15 x next write {0..49,63..65,4095..4097} x following write 0..33 x {fresh, after one stripe} with Sum32 (twice) and Sum probes after every write and Reset-reuse; random partitions up to 8 MiB; totals 2^32-16..2^32+16 via state copies, the tail written in one write, split 1+rest, and split so that a write ends exactly on 2^32 with more writes after it ; 48 frame-usage cases (sizes around the block size x Write / small Writes / ReadFrom x concurrency {1,4} x first and second frame of a reused Writer: header, block and content checksums of the emitted frame judged by the independent parser) (thorough: one-shot on real 4 GiB buffers and a Writer trailer for 2^32+5 bytes). A cell is (part, carry, length class); every case compares against the reference so all are non-trivial.",
 		Assumptions: baseAssumptions,
 		Require: func(rs *runState) string {
 			if rs.counters["boundary_probes"] < 66 {
@@ -83,7 +83,7 @@ func init() {
 	})
 	addSpec(&propSpec{
 		ID:          "C19",
-		Rule:        "complete enumeration: every FLG x BD descriptor (65536) x every checksum byte (256), content-size field present exactly when FLG says so, with 2 (quick) / 16 (thorough) size values incl. 2^64-1; each header goes through ValidFrameHeader and a fresh Reader (Read, Size). A cell is (FLG value, size value index); plus non-magic first words.",
+		Rule:        "complete enumeration: every FLG x BD descriptor (65536) x every checksum byte (256), content-size field present exactly when FLG says so, with 2 (quick) / 16 (thorough) size values incl. 2^64-1; each header goes through ValidFrameHeader and a fresh Reader (Read, Size); every header with a correct checksum byte is also delivered to a Reader one byte per read and with one split at a rotating position (same verdict and Size required). A cell is (FLG value, size value index); plus non-magic first words.",
 		Assumptions: append([]string{"content-size values are sampled (2 or 16 of 2^64); everything else in the header space is enumerated"}, baseAssumptions...),
 		Exhaustive: func(rs *runState) bool {
 			// 128 FLG values without size flag + 128 with, times size values
@@ -129,7 +129,7 @@ func init() {
 	})
 	addSpec(&propSpec{
 		ID:          "C11",
-		Rule:        "sources as for C01 (smaller); destination lengths: every length 0..bound+3 when the bound is <= 400 (thorough 3000), else {0,1,2,n*-2..n*+2,len(src)-1..len(src)+1,bound-1,bound,bound+1,bound+7} plus the output offsets at which the parts of the first 10-40 sequences of the encoded block end (and one less: where a room check is decided by one byte), plus seeded lengths biased just below the achievable size n*; each destination is a sub-slice of a canary-filled buffer (spare capacity) and, sampled, ends at an unmapped guard page; monitors: panic, n>len(dst), canary change, zero/err at >= bound, err with n!=0, n>0 whose dst[:n] is not a complete block for the source (reference decoder). A cell is (source class, size class, entry point, outcome, destination length relative to n*/bound).",
+		Rule:        "sources as for C01 (smaller); destination lengths: every length 0..bound+3 when the bound is <= 400 (thorough 3000), else {0,1,2,n*-2..n*+2,len(src)-1..len(src)+1,bound-1,bound,bound+1,bound+7} plus the output offsets at which the parts of the first 10-40 sequences of the encoded block end (and one and two less: where a room check is decided by a byte or two), plus seeded lengths biased just below the achievable size n*; each destination is a sub-slice of a canary-filled buffer (spare capacity) and, sampled, ends at an unmapped guard page; monitors: panic, n>len(dst), canary change, zero/err at >= bound, err with n!=0, n>0 whose dst[:n] is not a complete block for the source (reference decoder). A cell is (source class, size class, entry point, outcome, destination length relative to n*/bound).",
 		Assumptions: baseAssumptions,
 	})
 }
@@ -381,7 +381,7 @@ func buildLz4c(rs *runState) error {
 func init() {
 	addSpec(&propSpec{
 		ID:          "C20",
-		Rule:        "lz4c is built from cmd/lz4c against the working tree (go build -modfile with a replace directive; checked with go version -m) and run in scratch directories: flag sets from a mixed-radix enumeration over -size {default,64K,256K,1M,4M} x -bc x -sc x -l {absent,0..9} x -c {absent,1,2} (all pairs occur), file sizes {0,1,1000, block size -1/=/+1, 3 blocks+777, random} x contents {text, random, mixed} x mode bits {0600,0644,0755,0664,0666,0777,0640} x umask {022,0}, file mode and stdin/stdout mode, pre-existing (longer, other mode) output files, every sixth case also two files in one invocation. Monitors: exit status / termination; the .lz4 output parsed by the independent frame parser (C09 rules); header bits against the usage text (-bc => block checksums, '-sc disable stream checksum' => content checksum absent with the flag and present without, -size => block-size code); -l N => byte-identical to the library Writer at level N; uncompress restores bytes and permission bits. A cell is (flag set, size class, mode, umask, file/stdio).",
+		Rule:        "lz4c is built from cmd/lz4c against the working tree (go build -modfile with a replace directive; checked with go version -m) and run in scratch directories: flag sets from a mixed-radix enumeration over -size {default,64K,256K,1M,4M} x -bc x -sc x -l {absent,0..9} x -c {absent,1,2} (all pairs occur), file sizes {0,1,1000, block size -1/=/+1, 3 blocks+777, random} x contents {text, random, mixed} x 15 file names (ending in one of the characters of the .lz4 suffix, already carrying the suffix, with a space, upper case, one letter, non-ASCII) x mode bits {0600,0644,0755,0664,0666,0777,0640} x umask {022,0}, file mode and stdin/stdout mode, pre-existing (longer, other mode) output files, every sixth case also two files in one invocation. Monitors: exit status / termination; the .lz4 output parsed by the independent frame parser (C09 rules); header bits against the usage text (-bc => block checksums, '-sc disable stream checksum' => content checksum absent with the flag and present without, -size => block-size code); -l N => byte-identical to the library Writer at level N; uncompress restores bytes and permission bits. A cell is (flag set, size class, mode, umask, file/stdio).",
 		Assumptions: append([]string{"third-party modules of lz4c (cmdflag, progressbar, bytefmt) are used as found in the module cache"}, baseAssumptions...),
 		Pre:         buildLz4c,
 		Require: func(rs *runState) string {
